@@ -56,7 +56,7 @@ ORACLE = {
     'C13': ['res', 'tree', 'unjustified'],
     'C14': ['res', 'tree', 'rollback', 'tmp_leak', 'contract'],
     'C15': ['refused_effect', 'tmp_leak'],
-    'C16': ['res', 'unjustified'],
+    'C16': ['res', 'unjustified', 'rollback', 'clean_tree'],
     'TIE': [],
 }
 # correspondence slices: disagreements between the real code and the implementation model FB.Impl
@@ -454,6 +454,13 @@ def c16_cases(tier, ds):
         ]
         funcs.append(gen._fn('rootfail', funcs[0]['stmts'] + [['raise', 99]]))
         steps = [gen._build(), gen._build(), gen._build(root=rng.choice([0, 5])), gen._build()]
+        if rng.random() < 0.4:
+            # the cache write of one build whose root function succeeds fails (disk full / cannot create):
+            # the previous cache content must be back - or no cache file left, if there was none
+            b = rng.choice([i_ for i_, st_ in enumerate(steps) if st_[3] == 0])
+            steps[b] = steps[b] + [{'inject_op': rng.choice(['write-cache', 'open-for-write']), 'abort': 'end'}]
+            if rng.random() < 0.5:
+                steps.insert(b + 1, ['clean', 'n'])
         if rng.random() < 0.5:
             steps.append(['clean', 'n'])
         out.append({'kind': 'hist', 'seed': 'c16:%d' % i, 'dirsize': ds, 'cache': 'cache.gz', 'tree': [], 'funcs': funcs, 'steps': steps})
